@@ -106,6 +106,14 @@ class Model:
         return "ok"
 
 
+def fattr(f, key, default=None):
+    """A filter record's field, whether the record is a mapping (today) or an object with attributes."""
+    try:
+        return f[key]
+    except (TypeError, KeyError, IndexError):
+        return getattr(f, key, default)
+
+
 def classify(call):
     """Run a FiltersSet call; returns (class, value, exception)."""
     from sievelib.factory import FilterAlreadyExists
